@@ -48,7 +48,7 @@ def must_follow(ctx, P, views, iters):
         for lits in ({"reroute": "False"}, {"reroute": "True"}):
             w = Walker(P, view, keep=lambda e: e.kind == "call" and e.d["meth"] in ("detatch_server", "begin_service_if_possible_release", "accept") and e.d["recv"] in ("self", None) or
                        (e.kind == "call" and e.d["meth"] == "accept"),
-                       inline=lambda ev: False, literal_args=lits, loop_iters=iters)
+                       inline=rules.new_helper, literal_args=lits, loop_iters=iters)
             for st in w.paths_of(cls, fn):
                 if st.status == "raise":
                     continue
@@ -70,7 +70,7 @@ def must_follow(ctx, P, views, iters):
         if r:
             cls, fn = r
             w = Walker(P, view, keep=lambda e: e.kind == "call" and e.d["meth"] in ("detatch_server", "attach_server", "reroute") and e.d["recv"] == "self",
-                       inline=lambda ev: False, loop_iters=iters)
+                       inline=rules.new_helper, loop_iters=iters)
             for st in w.paths_of(cls, fn):
                 if st.status == "raise":
                     continue
@@ -85,7 +85,7 @@ def must_follow(ctx, P, views, iters):
             cls, fn = r
             COPIES = ("self.servers[::1]", "self.servers[:]", "list(self.servers)", "self.servers.copy()")
             w = Walker(P, view, keep=lambda e: (e.kind == "call" and e.d["meth"] in ("interrupt_service", "kill_server")) or e.kind in ("iter", "loopexit") or
-                       (e.kind == "assign" and e.d.get("local") and e.d["value"].replace(" ", "") in COPIES), inline=lambda ev: False, loop_iters=iters, track=lambda t, f: False)
+                       (e.kind == "assign" and e.d.get("local") and e.d["value"].replace(" ", "") in COPIES), inline=rules.new_helper, loop_iters=iters, track=lambda t, f: False)
             for st in w.paths_of(cls, fn):
                 ints = [e for e in st.events if e.kind == "call" and e.d["meth"] == "interrupt_service"]
                 if not ints or st.status == "raise":
@@ -105,7 +105,7 @@ def must_follow(ctx, P, views, iters):
         if r:
             cls, fn = r
             w = Walker(P, view, keep=lambda e: e.kind == "call" and e.d["meth"] in ("add_new_servers", "begin_service_if_possible_change_shift", "take_servers_off_duty"),
-                       inline=lambda ev: False, loop_iters=iters)
+                       inline=rules.new_helper, loop_iters=iters)
             for st in w.paths_of(cls, fn):
                 if st.status == "raise":
                     continue
@@ -121,7 +121,7 @@ def must_follow(ctx, P, views, iters):
         # (d) accept: append => begin_service_if_possible_accept
         cls, fn = view.method("accept")
         w = Walker(P, view, keep=lambda e: e.kind == "call" and (e.d["meth"] == "begin_service_if_possible_accept" or (listop(e) and listop(e)[2] == "individuals")),
-                   inline=lambda ev: False, loop_iters=iters)
+                   inline=rules.new_helper, loop_iters=iters)
         for st in w.paths_of(cls, fn):
             if st.status == "raise":
                 continue
@@ -216,7 +216,7 @@ def free_server_search(ctx, P, views, iters):
     done = set()
     for view in views:
         cls, fn = view.method("find_free_server")
-        w = Walker(P, view, keep=lambda e: e.kind in ("guard", "return", "iter", "loopexit") or (e.kind == "assign" and e.d.get("local")), track=lambda t, f: True, inline=lambda ev: False, loop_iters=iters)
+        w = Walker(P, view, keep=lambda e: e.kind in ("guard", "return", "iter", "loopexit") or (e.kind == "assign" and e.d.get("local")), track=lambda t, f: True, inline=rules.new_helper, loop_iters=iters)
         n = 0
         for st in w.paths_of(cls, fn):
             if st.status != "return":
